@@ -27,7 +27,7 @@ BATCH = 60
 
 
 def gen(rng, tier):
-    n = 60 if tier == 'quick' else 2500
+    n = G.budget(60) if tier == 'quick' else 2500
     for _ in range(n):      # eigen-solver cases
         k = rng.randint(2, 8 if tier == 'thorough' else 6)
         style = rng.choice(['general', 'stochastic', 'symmetric', 'cyclic'])
